@@ -135,10 +135,27 @@ def parse_event(text: str) -> t.Dict[str, t.Any]:
     return e
 
 
-def str_event(tree: t.Dict[str, t.Any]) -> t.Dict[str, t.Any]:
+def hashcons(f: t.Any, seen: t.Optional[t.Dict[str, t.Any]] = None) -> t.Any:
+    """The same filter with equal sub-filters represented by ONE object (an application that builds a clause once and uses
+    it in several places)."""
+    import dataclasses
+
+    import sansldap as s
+
+    seen = {} if seen is None else seen
+    if isinstance(f, (s.FilterAnd, s.FilterOr)):
+        f = dataclasses.replace(f, filters=[hashcons(x, seen) for x in f.filters])
+    elif isinstance(f, s.FilterNot):
+        f = dataclasses.replace(f, filter=hashcons(f.filter, seen))
+    return seen.setdefault(repr(f), f)
+
+
+def str_event(tree: t.Dict[str, t.Any], shared: bool = False) -> t.Dict[str, t.Any]:
     import sansldap
 
     f = proj.filter_from_abstract(tree)
+    if shared:
+        f = hashcons(f)
     e: t.Dict[str, t.Any] = {"op": "str", "tree": tree, "text": [], "backres": "ok", "back": {"k": "none"}}
     try:
         text = str(f)
@@ -254,6 +271,13 @@ def run_c13(tier: str, seed: int) -> int:
             for _ in range(n):
                 tr = {"k": "not", "f": tr}
             events.append(str_event(tr))
+        # one object used in several places of a tree (leaf and composite)
+        for _ in range(300 if tier == "quick" else 3000):
+            c = r_tree(rnd, rnd.randrange(1, 3))
+            shape = rnd.randrange(4)
+            tr = ({"k": "or", "fs": [c, c]} if shape == 0 else {"k": "and", "fs": [c, {"k": "not", "f": c}]} if shape == 1 else
+                  {"k": "or", "fs": [{"k": "and", "fs": [c, r_tree(rnd, 0)]}, {"k": "and", "fs": [c, r_tree(rnd, 0)]}]} if shape == 2 else {"k": "not", "f": {"k": "and", "fs": [c, c, c]}})
+            events.append(str_event(tr, shared=True))
         for wt in wide_trees():
             we = str_event(wt)
             rep.case(str(wt)[:600])
